@@ -58,7 +58,23 @@ func genSpec(r *rand.Rand, i int) (c04wl.Spec, string) {
 	var n int
 	var pl int64
 	class := ""
-	switch i % 6 {
+	zero := func(b []byte, from, to int) {
+		for j := from; j < to && j < len(b); j++ {
+			b[j] = 0
+		}
+	}
+	switch i % 8 {
+	case 6:
+		// long run of zero bytes at the end: two all-zero pieces and a zero short last piece
+		pl = int64(4 + r.Intn(5))
+		n, class = int(pl)*4+int(pl)/2, "zero-tail"
+	case 7:
+		// all-zero pieces at the start and in the middle (one variant: the whole blob is zeros)
+		pl = int64(4 + r.Intn(5))
+		n, class = int(pl)*5, "zero-pieces-mid-restart"
+	}
+	switch i % 8 {
+	case 6, 7:
 	case 0:
 		n, pl, class = 31, 7, "5-pieces-last-short"
 	case 1:
@@ -75,6 +91,16 @@ func genSpec(r *rand.Rand, i int) (c04wl.Spec, string) {
 		n, class = 1+r.Intn(40), "random-mid-restart"
 	}
 	spec := c04wl.Spec{Blob: gen.Bytes(r, n), PieceLength: pl}
+	switch class {
+	case "zero-tail":
+		zero(spec.Blob, int(pl)*2, n)
+	case "zero-pieces-mid-restart":
+		zero(spec.Blob, 0, int(pl))
+		zero(spec.Blob, int(pl)*2, int(pl)*3+2)
+		if i%16 == 15 {
+			zero(spec.Blob, 0, n)
+		}
+	}
 	np := numPieces(spec)
 	order := r.Perm(np)
 	steps := []c04wl.Step{{Op: "create"}}
@@ -376,6 +402,47 @@ func runWorkload(t *testing.T, bin, base string, w workload, killRand *rand.Rand
 				addF("continued-download-does-not-complete-correctly/"+wk, nil)
 				return
 			}
+			// epilogue: evict (DeleteTorrent) and download again on the recovered directories
+			ep := resp.Epilogue
+			staleDir := dlDir != "" && !dlData // a download entry directory without its data file
+			epSig := func(what string) string {
+				if staleDir {
+					return what + "/stale-download-entry-dir"
+				}
+				return what + "/" + wk
+			}
+			switch {
+			case !ep.Ran:
+				addF("evict-and-redownload-not-run/"+wk, nil)
+				return
+			case ep.DeleteErr != "":
+				addF(epSig("redownload-after-eviction-delete-fails"), map[string]interface{}{"error": ep.DeleteErr})
+				return
+			case ep.CacheAfterDelete != nil && ep.CacheAfterDelete.Present:
+				addF(epSig("redownload-after-eviction-blob-still-cached-after-delete"), nil)
+				return
+			case !ep.Created:
+				addF(epSig("redownload-after-eviction-createtorrent-fails"), map[string]interface{}{"createtorrent_errors": ep.CreateErrs})
+				return
+			case ep.Complete && np > 0 || wrongCache(ep.CacheAfter) || ep.CacheAfter != nil && ep.CacheAfter.Present && np > 0:
+				// nothing has been downloaded yet: a non-empty blob cannot be complete / cached
+				addF(epSig("redownload-after-eviction-reports-complete-without-download"), map[string]interface{}{"reported_bits": ep.Bits})
+				return
+			}
+			for _, i := range ep.Bits {
+				if _, bad := ep.PieceErrs[i]; bad || i >= np || !bytes.Equal(ep.Pieces[i], pieceOf(blob, w.spec.PieceLength, i)) {
+					addF(epSig("redownload-after-eviction-piece-reported-complete-with-wrong-bytes"), map[string]interface{}{"piece": i, "reported_bits": ep.Bits})
+					return
+				}
+			}
+			if len(ep.WriteErrs) > 0 || !ep.FinalComplete || ep.CacheFinal == nil || !ep.CacheFinal.Present || wrongCache(ep.CacheFinal) {
+				addF(epSig("redownload-after-eviction-does-not-complete-correctly"), map[string]interface{}{"write_errors": ep.WriteErrs})
+				return
+			}
+			res.counts["evict_and_redownload_completed"]++
+			if staleDir {
+				res.counts["evict_and_redownload_over_stale_download_entry_dir"]++
+			}
 			switch {
 			case resp.Complete:
 				res.counts["recovered_already_complete"]++
@@ -456,6 +523,7 @@ func TestC04(t *testing.T) {
 	if err := fsrec.BuildChild("./c04/cmd/c04child", bin); err != nil {
 		t.Fatalf("build child: %v", err)
 	}
+	t.Logf("child %s built from the harness module with modfile %q, VERIF_REPO=%q (empty = /repo)", bin, fsrec.ChildModfile(), os.Getenv("VERIF_REPO"))
 	if _, err := exec.LookPath("strace"); err != nil {
 		run.Inconclusive("strace not available")
 		return
